@@ -33,7 +33,9 @@ func (m *pbLegacy) Marshal() ([]byte, error) {
 	}
 	return append([]byte(nil), m.Payload...), nil
 }
-func (m *pbLegacy) Unmarshal(b []byte) error { m.Payload = append([]byte(nil), b...); return nil }
+// Unmarshal MERGES into the receiver, as golang/protobuf asks of a message's own Unmarshal ("should not reset the
+// receiver"): proto.Unmarshal resets the message first, so a decode still yields exactly b.
+func (m *pbLegacy) Unmarshal(b []byte) error { m.Payload = append(m.Payload, b...); return nil }
 func (m *pbLegacy) Reset()                   { m.Payload = nil }
 func (m *pbLegacy) String() string           { return fmt.Sprintf("legacy(%d)", len(m.Payload)) }
 func (m *pbLegacy) ProtoMessage()            {}
@@ -278,6 +280,17 @@ func (c *chunkReader) Read(p []byte) (int, error) {
 		return n, endErr
 	}
 	return n, nil
+}
+
+// lenReader is a chunking reader that also has a Len() method meaning "bytes that can be read without waiting"
+// (a FIFO, a ring buffer, a buffered pipe): less than what will eventually arrive.
+type lenReader struct{ *chunkReader }
+
+func (l lenReader) Len() int {
+	if rem := len(l.data) - l.pos; rem < 4096 {
+		return rem
+	}
+	return 4096
 }
 
 // stdReader is one of the reader types callers actually pass (the chunkReader above is ours): the functions under
